@@ -81,6 +81,8 @@ def run_statement_property(run, *, prop, propfile, module, theorems, header, cas
                     "statement_false_in_known_class": sorted(known_hit), "statement_true_in_known_class": nknown_pass, "label_distribution": dist,
                     "model_objects": len(C.items), "model_cases": len(C.cases), "model_agrees": sum(1 for a in agree if a), "model_unmodelled": C.unmodelled,
                     "disagreements_checked": len(mism)})
+    if callable(extra_cov):
+        extra_cov = extra_cov()
     if extra_cov:
         run.cov.update(extra_cov)
     run.assumptions += list(assumptions)
